@@ -25,7 +25,7 @@ impl Method for VWMA {
 		&&& self.vol_sum@ == VWMA::den(self.window.view())
 	}
 	open spec fn rejects(parameters: PeriodType) -> bool { parameters == 0 }
-	open spec fn new_req(parameters: PeriodType, initial_value: &(ValueType, ValueType)) -> bool { parameters < PeriodType::MAX }
+	open spec fn new_req(parameters: PeriodType, initial_value: &(ValueType, ValueType)) -> bool { true }
 	open spec fn fresh(parameters: PeriodType, initial_value: &(ValueType, ValueType), s: &Self) -> bool {
 		s.window.view() =~= Seq::new(parameters as nat, |i: int| *initial_value)
 	}
